@@ -40,6 +40,16 @@ LEVEL_TEXT = (
 LEVEL_NOTE = "Domain = non-empty keys (as stated). Trusted: reference binary trie (README KAT), keccak."
 TECHNIQUE = "model-based property testing (prefix-free dict model) + differential root vs reference binary trie + bounded-exhaustive op sequences"
 
+NODE_HASH = b"\xff<hash-of-db-node>"
+
+
+def resolve_bin_val(val, db):
+    if isinstance(val, bytes) and val.startswith(NODE_HASH):
+        keys = sorted(db)
+        return keys[val[-1] % len(keys)] if keys else b"first"
+    return val
+
+
 UNIVERSE = [b"\x00", b"\x01", b"\x40", b"\x80", b"\x00\x00", b"\x00\x01", b"\x00\x40", b"\x00\x80"]
 BASES = [b"\x12", b"\x12\x34", b"\x00\x00", b"\xff\xff\xff", b"\x12\x34\x56\x78", b"\x80\x00"]
 BASE32 = bytes(range(100, 132))
@@ -68,7 +78,9 @@ def keys(tier):
 
 def strategy(tier):
     k = keys(tier)
-    v = st.one_of(st.binary(min_size=1, max_size=4), st.sampled_from([b"v", b"value" * 8]))
+    v = st.one_of(st.binary(min_size=1, max_size=4), st.sampled_from([b"v", b"value" * 8]),
+                  # resolved at run time: the hash of the i-th node currently in the db
+                  st.integers(0, 30).map(lambda i: NODE_HASH + bytes([i])))
     idx = st.tuples(st.just("idx"), st.integers(0, 40), st.integers(0, 40),
                     st.one_of(st.none(), st.integers(0, 255)))
     sib = st.tuples(st.just("sib"), st.integers(0, 40),
@@ -204,6 +216,7 @@ def run_case(case):
     for no, op in enumerate(case):
         kind, kspec, val, syn = op
         k = resolve_arg(kspec, model)
+        val = resolve_bin_val(val, db)
         before_root = bytes(t.root_hash)
         before_shape = RefBin(model)
         nb_before = sum(1 for b in before_shape.bodies.values() if b[0] == 1)
@@ -262,11 +275,16 @@ def run_case(case):
             order.append(root)
         # earlier roots remain readable from the same db
         for old in {order[0], order[no % len(order)], order[(no * 5 + 1) % len(order)]}:
-            ot = impl("construct", BinaryTrie, db, old)
-            check_reads(ot, ledger[old], sorted(ledger[old]), False)
+            # re-open from an equal but distinct bytes object (as after a (de)serialisation)
+            ot = impl("construct", BinaryTrie, db, bytes(bytearray(old)))
+            check_reads(ot, ledger[old], sorted(ledger[old]) + [k, b"\x00"], False)
     for old in order:
-        ot = impl("construct", BinaryTrie, db, old)
-        check_reads(ot, ledger[old], sorted(ledger[old]), False)
+        ot = impl("construct", BinaryTrie, db, bytes(bytearray(old)))
+        check_reads(ot, ledger[old], sorted(set(ledger[old]) | set(model) | {b"\x00"}), False)
+        if not ledger[old]:
+            # an emptied trie is writable again
+            impl("set-on-reopened-empty", ot.set, b"\x33", b"x")
+            expect_eq("get-matches-model", impl("lookup-never-raises", ot.get, b"\x33"), b"x", "get after set on a re-opened empty trie")
     if not model:
         expect_eq("empty-is-blank-hash", bytes(t.root_hash), BLANK, "root of the empty trie")
     info.nontrivial = refusals >= 1 and compress >= 1 and splits >= 1
